@@ -355,7 +355,7 @@ def recv_capacity_rule(res, fx, rule='RECV-CAPACITY'):
         raise AnalysisBroken('RECV-CAPACITY: no TruncateToLength on the receive buffer found')
 
 
-def codec_step_rule(res, fx):
+def codec_step_rule(res, fx, min_sites=2):
     """A zlib stream whose Messages depend on each other advances on both sides with every Message: what Deflate() consumed must be what is sent."""
     res.rule('CODEC-STEP', 'after a successful ZLibCodec::Deflate() in dependent mode (independent flag not literally true) the deflated buffer becomes the outgoing buffer and the frame is tagged with the zlib '
                            'encoding on every path; otherwise the sender codec has consumed a Message the receiver codec never sees', floor=2)
@@ -392,11 +392,24 @@ def codec_step_rule(res, fx):
                     esc.add((blk.b, 1 if pol else 0))
             ok1, path = P.must_follow(f, holder, moves, escapes=esc) if moves else (False, None)
             ok2, _ = P.must_follow(f, holder, encs, escapes=esc) if encs else (False, None)
+            # … and the converse: the frame is labelled zlib only where the deflated buffer is what goes out (a receiver inflates whatever carries the label)
+            from msa import guards as G_
+            bad_lab = None
+            for e_ in encs:
+                dom = P.must_precede(f, [holder], e_)
+                nonnull = any(any(y['k'] == 'DeclRefExpr' and y.get('d') == holder['d'] for y in cn.walk()) and t and P.is_pointerish(A.strip_casts(cn)) for (cn, t) in G_.atoms_at(f, e_))
+                if not (dom and nonnull):
+                    bad_lab = bad_lab or e_
+            res.ob('CODEC-STEP', f.where(bad_lab) if bad_lab is not None else f.where(c), '%s: the zlib encoding word is set only where Deflate() returned a buffer' % f.q, bad_lab is None and bool(encs), function=f.q,
+                   key='CODEC-STEP|%s|label-implies-deflated' % f.q,
+                   message='%s sets the zlib encoding word at line %s on a path where no deflated buffer is known to be sent: a frame whose body is the raw flattened Message goes out labelled as '
+                           'deflated, the C++ receiver fails to inflate it and drops the connection, the C and Python codecs (which accept only the default encoding) reject it'
+                           % (f.q, bad_lab.get('l') if bad_lab is not None else '?'))
             res.ob('CODEC-STEP', f.where(c), '%s: a non-NULL Deflate() result always becomes the outgoing buffer and sets the zlib encoding word' % f.q, ok1 and ok2, function=f.q,
                    how='buffer taken at line %s, encoding set at line %s' % (moves[0].get('l') if moves else '?', encs[0].get('l') if encs else '?'), key='CODEC-STEP|%s|deflate-used' % f.q,
                    message='%s: a path from a successful dependent-mode Deflate() reaches the return without sending the deflated buffer (or without tagging the frame as zlib): the sender\'s zlib stream '
                            'has advanced past a Message the receiver never inflates, so the next compressed Message fails to decode' % f.q)
-    if n < 2:
+    if n < min_sites:
         raise AnalysisBroken('CODEC-STEP: %d dependent-mode Deflate() sites found, expected the stream gateway and the templating gateway' % n)
 
 
